@@ -7,7 +7,7 @@ import random
 from datetime import date, timedelta
 from typing import Any, Dict, List, Optional, Tuple
 
-from rpv.checks.inproc_util import candidate_days, clean_cut
+from rpv.checks.inproc_util import candidate_days, clean_cut, inverted_pair_days, offset_sensitive_days
 from rpv.cli_core import LONG_ASSET, add_dust_account, cli_histories, cli_profile, generator_crash, method_choice, rename_asset
 from rpv.drive_cli import COUNTRY_LANGUAGES, Workspace
 from rpv.expected import Expected
@@ -45,7 +45,15 @@ def make_case(rng: random.Random, hostile_rows: bool = False) -> Dict[str, Any]:
     pick = rng.random()
     from_s: Optional[str] = None
     to_s: Optional[str] = None
-    if country == "jp":
+    special = sorted({d for h in hists.values() for d in inverted_pair_days(h) + offset_sensitive_days(h)})
+    if special and rng.random() < 0.4:
+        # a from-date on the own date of a row whose own-date order against its neighbour in time is inverted, or whose own
+        # and UTC dates differ (the shown rows are defined by own dates; lower bounds do not meet KF1)
+        from_s = rng.choice(special).isoformat()
+        later = [d for d in clean if d.isoformat() >= from_s]
+        if later and country != "jp" and rng.random() < 0.3:
+            to_s = rng.choice(later).isoformat()
+    elif country == "jp":
         # KF3: the JP tax report refuses -f together with -t
         if pick < 0.35 and all_days:
             from_s = rng.choice(all_days).isoformat()
@@ -122,8 +130,8 @@ def run_case(ctx: Any, expected: Expected, case: Dict[str, Any], name: str, what
             if crash:
                 ctx.violation("fullreport.generator-crashed", {"error": crash}, case)
                 return None
-            ctx.count("unobservable")
-            ctx.tag("tag_unobservable", f"cli exit {res.exit}: {res.stderr.strip().splitlines()[-1][:140] if res.stderr.strip() else ''}")
+            # the input and the options are valid by construction and the report this property is about was not produced
+            ctx.violation("fullreport.run-failed-on-valid-input", {"exit": res.exit, "error": res.stderr.strip().splitlines()[-1][:200] if res.stderr.strip() else ""}, case)
             return None
         path = res.report("rp2_full_report")
         if not path:
